@@ -12,6 +12,11 @@ Ties:
      `activities.authenticator` with scripted login handlers, 1–6 concurrent requesters, server-side
      token revocations: one label per lock-protected code segment; the Lean LTS must accept the
      trace and agree on `_current` / `_invalid` / `_ready` after every label.
+ (D, part S) the REAL `kopf.operator()` against the fake API server (harness.sim, nothing inside kopf wrapped):
+     scripted faults on the operator's own PATCH requests of some objects; the PATCH schedule of every faulty
+     object (attempts of every cycle, exact ticks; the instant it is processed again after a pause) = the Lean
+     composition request-model ∘ throttler-model (`processCycles`); the oracle judges retries, pauses, recovery,
+     the other objects and the operator's survival from the server's request log and the handler calls.
 The Python oracle is written from the property text over the observations (attempt log of the fake
 session, which credential every attempt carried, the activity runs) and never looks at the model.
 """
@@ -47,22 +52,31 @@ LEVEL_TEXT = (
     "unusable details -> the configured backoff, no foreign exception); throttler (every configuration, a scalar "
     "being the one-item list: scalar_delays_is_one_item_list, F8 repaired): delays_follow_config (incl. the served "
     "pause), empty_config_never_throttles, success_resets, swallowed, recovers_after_errors_stop, paused_while_active, "
-    "interrupted_pause_is_kept; vault LTS: single_reauth, single_reauth_when_logins_deliver, reauth_possible, "
+    "interrupted_pause_is_kept; the composition in a processing cycle whose API call escalates (request model ∘ throttler "
+    "model, every script / configuration / throttler state): escalation_contained (nothing reaches the worker), "
+    "escalation_pauses_object (delays[min(p,last)] counted from the escalation, growing per consecutive error), "
+    "escalation_pause_interrupted_is_kept, paused_object_makes_no_request, recovers_and_resets; vault LTS: single_reauth, single_reauth_when_logins_deliver, reauth_possible, "
     "no_impossible_state. GUARDED (_partial, with proved negation witnesses replayed from the corpus and open finding "
     "F3): invalid_not_reused_partial and all_proceed_fresh_partial (guard: last 3 invalidations of the SAME key with "
     "the SAME priority). NEGATIVE (open finding F9): body_read_failure_not_retried_witness. ORACLE-ONLY clauses (no "
     "theorem with temporal content): 'does not stop the operator or delay other objects' - checked by part C on the "
     "REAL queueing.watcher/worker + process_resource_event (2-4 objects, failing index/event filters, scalar/empty/list "
     "delays, worker_limit None/1/2): holds (F8, F10 repaired) except under worker_limit (open finding F11, by design of "
-    "that setting). 'processing recovers once errors stop' is per throttler cycle (a NEW event of the object is needed: "
-    "the failed one is dropped). Tie: status->class chain, >=400 guard and retry tuple extracted from the AST and proved "
+    "that setting) - and by part S on the whole REAL operator against the fake API server (2-3 objects, 1-2 of them with "
+    "scripted faults on their own PATCHes: 5xx/403/429 with Retry-After, connection errors, timeouts, fatal 4xx): every "
+    "retry gap, every pause after an escalation (lower bound, growth per consecutive error, reset by a success), the "
+    "reaction to every change of a faulty object once it is free again, the healthy objects' handling and the operator's "
+    "survival are judged. 'processing recovers once errors stop' is per throttler cycle (a NEW event of the object is "
+    "needed: the failed one is dropped). Tie: status->class chain, >=400 guard and retry tuple extracted from the AST and proved "
     "equal; the real api.request / api.get / throttled / Vault+authenticated+authenticator run against the models "
-    "(differential with exact ticks; product run of concurrent objects; trace acceptance with vault-state snapshots). The "
+    "(differential with exact ticks; product run of concurrent objects; trace acceptance with vault-state snapshots; the whole "
+    "operator's PATCH schedule against processCycles). The "
     "structure of the retry loop, of throttled() and of the Vault methods is tied by those runs (sampled), not by translation.")
 TIE = ("T (check_response chain + retry tuple: AST → Lean, proved equal) + D (real api.request/api.get and real throttled "
        "under virtual time, exact tick comparison, incl. the N-object product run) + A (real Vault/authenticated/"
-       "authenticator: labelled segments accepted by the Lean LTS with equal vault state after every label); part C "
-       "(real watcher/worker/process_resource_event) is oracle-only")
+       "authenticator: labelled segments accepted by the Lean LTS with equal vault state after every label) + D (part S: "
+       "the real operator's PATCH attempts cycle by cycle and its resumption after a pause = request model ∘ throttler model, "
+       "exact ticks); part C (real watcher/worker/process_resource_event) is oracle-only")
 THEOREMS = [("Kopf.Props.C12", "Kopf.C12." + n) for n in [
     "attempts_bound", "gap_ge_backoff", "gap_ge_retry_after", "gap_ge_requested", "requested_rounded_up",
     "fatal_4xx_immediate", "transient_retried_then_escalates", "success_stops", "transient_http_iff",
@@ -71,6 +85,8 @@ THEOREMS = [("Kopf.Props.C12", "Kopf.C12." + n) for n in [
     "delays_follow_config", "empty_config_never_throttles", "success_resets", "swallowed",
     "scalar_delays_is_one_item_list", "recovers_after_errors_stop", "paused_while_active",
     "interrupted_pause_is_kept",
+    "escalation_contained", "escalation_pauses_object", "escalation_pause_interrupted_is_kept",
+    "paused_object_makes_no_request", "recovers_and_resets",
     "single_reauth", "single_reauth_when_logins_deliver", "reauth_possible", "all_proceed_fresh_partial",
     "invalid_not_reused_partial",
     "invalid_reused_beyond_history_witness", "invalid_reused_under_other_key_witness",
@@ -93,7 +109,14 @@ RULE = (
     "negative, under other spellings of the header name, fractional details; error bodies: non-dict JSON, details a "
     "string/list, retryAfterSeconds 'soon'/NaN/Infinity/[5]; Retry-After on 5xx/403 by header and details; 6% through "
     "api.get with the body read failing. contain: 2-4 objects on the real watcher, failing index / event filters, "
-    "scalar / empty / list error_delays, worker_limit None/1/2, later events at scripted times. A case is non-trivial "
+    "scalar / empty / list error_delays, worker_limit None/1/2, later events at scripted times. request also: every method "
+    "(get/post/patch/delete/put/head), content type (merge-, json-, strategic-merge-patch, json, none) and URL; through "
+    "api.get/post/patch/delete; 8% of the Retry-After values / configured backoffs / delays are minutes to a day (31 s ... 86400 s), "
+    "10% of the configurations have 9-20 items with runs of 10-24 transient failures / consecutive errors; HTTP-dates as GMT / +0000 / -0000 (naive) / east / west of Greenwich / without weekday. vault "
+    "also: 403/429 answers, logins returning the credential handed out 2/3/4 logins ago (the edge of the vault's memory). "
+    "operator (part S): 2-3 objects (1-2 faulty), error_backoffs of 0-3 items or a scalar, error_delays list/scalar/empty, "
+    "enforce_retry_after, per faulty object 1-4 scripted API calls that exhaust the retries / hit a fatal 4xx / recover, "
+    "2-7 changes per object placed into the retries and the pauses, one long after the last fault. A case is non-trivial "
     "when it leaves the straight path (a retry, an escalation, a throttling activation, an invalidation).")
 TRUSTED = [
     "pyextract vocabulary for errors.check_response (response.status comparisons) and the except-tuple of api.request",
@@ -103,6 +126,9 @@ TRUSTED = [
     "SimLoop virtual time (all times dyadic, 1 tick = 2**-10 s)",
     "label instrumentation: Vault subclass overriding select()/populate() to record, frame-name lookup of the Vault "
     "method that entered the guard, the raw api.request re-wrapped by the real auth.authenticated with a tracer",
+    "part S: harness.sim (virtual-time loop, fake API server with injected faults: the answer leaves the server 1/64 s after "
+    "the request, a timeout lasts settings.networking.request_timeout), harness/props/sim_c12.py (request log + scripted "
+    "handlers' invocations; nothing inside kopf is wrapped), a cycle = one handler invocation and the PATCHes up to the next one",
     "if the shared Driver.lean cannot start because another property's module is missing, the same handler "
     "(Kopf.Drv.C12.handle) is served by a private main (harness/props/c12.py::ask_lean)",
 ]
@@ -116,6 +142,8 @@ ASSUMPTIONS = [
     "part C runs async handlers only (no executor threads under the virtual clock), one resource kind, and does not generate worker_limit together with an index handler: there, fewer slots than listed objects dead-lock start-up with no error at all (reported to C17, not this property's clause); cases without a failing object are not judged",
     "attempts_bound bounds one pass of api.request; a 401/APISessionClosed re-enters through auth.authenticated with a full budget (api.py comment) - the composition is exercised by the vault traces only",
     "the SSL close-notify marker is modelled on raised exceptions only (an APIError whose message echoes it is not generated)",
+    "part S: create/update handlers that succeed at once (one API call per cycle: the merge-patch that stores the result; no finalizer JSON-patch, no status subresource), worker_limit None, no 401/404/422 faults (re-authentication is part V's subject, 404/422 are 'object gone' / conflict answers of other mechanisms), numeric Retry-After only; a cycle is recognised by its handler invocation; after a failed cycle the object waits for its next event (the failed one is dropped, as noted above)",
+    "an error answer whose body cannot be read: with aiohttp both json() and text() then raise the same network error, which is retried like any other; the fake answers never fail on the body of an ERROR answer (only of the final 2xx, F9)",
 ]
 
 TICK = 2.0 ** -10
@@ -523,8 +551,12 @@ def outcome_class(e: BaseException | None) -> str:
 
 BACKOFF_POOL = [0, 64, 512, 1024, 1536, 2048, 3072, 5120]     # ticks
 RA_POOL = [0, 1, 2, 3, 5, 6]                                    # seconds
+RA_BIG = [31, 61, 120, 301, 3600, 86400]                        # seconds: beyond any plausible cap
 FATAL_4XX = [400, 404, 405, 409, 410, 418, 422, 499]
 TRANSIENT_STATUS = [403, 429, 500, 502, 503, 504, 599]
+
+
+BIG_TICKS = [62464, 308224, 614400, 3686400, 88473600]        # 61 s, 301 s, 600 s (kopf's last default), 1 h, 1 day
 
 
 def gen_seq(rng: random.Random, pool: list[int], kinds: list[str]) -> dict:
@@ -533,11 +565,13 @@ def gen_seq(rng: random.Random, pool: list[int], kinds: list[str]) -> dict:
         return {"kind": "empty", "ticks": []}
     if kind == "scalar":
         return {"kind": "scalar", "ticks": [rng.choice(pool)], "ints": rng.random() < 0.5}
-    n = rng.choice([1, 1, 2, 3, 3, 4, 6])
+    n = rng.choice([1, 1, 2, 3, 3, 4, 6]) if rng.random() < 0.9 else rng.choice([9, 12, 20])   # longer than kopf's defaults (8 / 15)
     spec: dict[str, Any] = {"kind": kind, "ticks": [rng.choice(pool) for _ in range(n)], "ints": rng.random() < 0.5}
     if kind == "inf":
         spec["ticks"] = spec["ticks"][:rng.choice([0, 1, 2])]
         spec["cyc"] = [rng.choice(pool) for _ in range(rng.choice([1, 2]))]
+    if spec["ticks"] and rng.random() < 0.08:     # minutes, hours: the configuration is not capped anywhere in the property
+        spec["ticks"][rng.randrange(len(spec["ticks"]))] = rng.choice(BIG_TICKS)
     return spec
 
 
@@ -550,11 +584,13 @@ def gen_attempt(rng: random.Random, backoff_hint: int | None) -> dict:
         a: dict[str, Any] = {"kind": "http", "lat": lat, "status": 429, "payload": rng.choice(["status", "status", "other-json", "text", "empty"])}
         base = (backoff_hint or 0) // 1024
         val = rng.choice(RA_POOL + [max(0, base - 1), base, base + 1, base + 1])
+        if rng.random() < 0.08:      # the server may ask for minutes or hours: there is no cap in the property
+            val = rng.choice(RA_BIG)
         how = rng.choice(["hdr", "hdr", "det", "both", "none", "hdr-empty", "hdr-frac"])
         r2 = rng.random()
         if r2 < 0.10:        # an HTTP-date placed around the backoff, in the past, or right now
             how = "hdr-date"
-            a["hdr_date"] = rng.choice([-3, 0, 1, 2, 3, 5, max(0, base - 1), base, base + 1, base + 1])
+            a["hdr_date"] = rng.choice([-3, 0, 1, 2, 3, 5, max(0, base - 1), base, base + 1, base + 1] + RA_BIG[:1] + RA_BIG[3:5])
             if rng.random() < 0.5:
                 a["hdr_date_form"] = rng.choice(DATE_FORMS[1:])
             if rng.random() < 0.3:
@@ -595,11 +631,12 @@ def gen_attempt(rng: random.Random, backoff_hint: int | None) -> dict:
         st = rng.choice(TRANSIENT_STATUS)
         a = {"kind": "http", "lat": lat, "status": st, "payload": rng.choice(["status", "text", "empty"])}
         if st != 429 and rng.random() < 0.15:     # Retry-After on 5xx/403: ignored by the code (finding F7)
+            big = rng.random() < 0.1
             if rng.random() < 0.7:
-                a["hdr"] = str(rng.choice(RA_POOL))
+                a["hdr"] = str(rng.choice(RA_BIG if big else RA_POOL))
             else:
                 a["payload"] = "status"
-                a["det"] = rng.choice(RA_POOL)
+                a["det"] = rng.choice(RA_BIG if big else RA_POOL)
         return a
     if r < 0.68:
         return {"kind": "http", "lat": lat, "status": rng.choice(FATAL_4XX + [401]), "payload": rng.choice(["status", "text", "empty"])}
@@ -629,9 +666,11 @@ def _garble_body(rng: random.Random, a: dict) -> dict:
 def gen_request(rng: random.Random) -> dict:
     bo = gen_seq(rng, BACKOFF_POOL, ["empty", "scalar", "list", "list", "tuple", "reiter", "inf"])
     n = rng.choice([0, 1, 2, 3, 4, 5, 6, 8])
+    mode = rng.random()
+    if len(bo.get("ticks", [])) > 8 or (bo["kind"] == "inf" and rng.random() < 0.15):
+        n, mode = rng.choice([10, 14, 22]), min(mode, 0.3)       # a long run of transient failures through a long configuration
     prefix = seq_prefix(bo, n + 1) or []
     script = []
-    mode = rng.random()
     for i in range(n):
         hint = prefix[i] if i < len(prefix) else None
         a = gen_attempt(rng, hint)
@@ -640,8 +679,13 @@ def gen_request(rng: random.Random) -> dict:
         script.append(_garble_body(rng, a))
     case = {"part": "request", "backoffs": bo, "enforce": rng.random() < 0.25, "script": script,
             "pause": rng.choice([0, 1, 7, 1024])}
-    if rng.random() < 0.5:           # the retry loop is the same for every method (reads and writes alike)
+    if rng.random() < 0.5:           # the retry loop is the same for every method (reads and writes alike),
         case["method"] = rng.choice(["post", "patch", "patch", "delete", "put", "head"])
+        # … every kind of payload and every URL
+        case["ctype"] = rng.choice(["application/merge-patch+json", "application/json-patch+json", "application/json-patch+json",
+                                    "application/strategic-merge-patch+json", "application/json", None])
+        case["url"] = rng.choice(["/apis/x", "/apis/kopf.dev/v1/namespaces/ns/kopfexamples/a", "/apis/kopf.dev/v1/namespaces/ns/kopfexamples/a/status",
+                                  "/api/v1/namespaces/default/events", "http://other.example/api?watch=true"])
     if rng.random() < 0.08:          # through api.get/post/patch/delete: the body of the final answer is read outside the retry loop
         case["via"] = rng.choice(["get", "get", "post", "patch", "delete"])
         case["script"] = [a if (a["kind"] == "http" and a["status"] != 401) or
@@ -672,14 +716,29 @@ async def _one_request(env: dict, case: dict) -> dict:
             vault = credentials.Vault({"k": credentials.AiohttpSession(server="http://fake", aiohttp_session=sess)})
             auth.vault_var.set(vault)
             kw = {} if case["via"] == "get" else {"payload": {"metadata": {"labels": {"x": "y"}}}}
-            # (the vault has one credential and no authenticator behind it: a request that asks for a
-            # re-authentication would wait for ever - bounded, and reported as what it is)
-            await asyncio.wait_for(getattr(api, case["via"])("/apis/x", settings=settings, logger=env["logger"], **kw), timeout=86400.0)
+            # (the vault has one credential; behind it an authenticator whose login handlers deliver nothing: a
+            # request that asks for a re-authentication gets its LoginError at once instead of waiting for ever)
+
+            async def no_logins() -> None:
+                while True:
+                    await vault.wait_for_emptiness()
+                    await vault.populate({})
+
+            stub = asyncio.ensure_future(no_logins())
+            try:
+                await getattr(api, case["via"])("/apis/x", settings=settings, logger=env["logger"], **kw)
+            finally:
+                stub.cancel()
+                await asyncio.gather(stub, return_exceptions=True)
         else:
             method = case.get("method", "get")
-            kw = {} if method in ("get", "head", "delete") else {"payload": {"metadata": {"labels": {"x": "y"}}},
-                                                                 "headers": {"Content-Type": "application/merge-patch+json"}}
-            await api.request(method, "/apis/x", settings=settings, logger=env["logger"], context=ctxt, **kw)
+            ctype = case.get("ctype", "application/merge-patch+json")
+            kw: dict[str, Any] = {} if method in ("get", "head", "delete") else \
+                {"payload": [{"op": "test", "path": "/metadata/resourceVersion", "value": "1"}] if ctype and "json-patch" in ctype
+                 else {"metadata": {"labels": {"x": "y"}}}}
+            if kw and ctype:
+                kw["headers"] = {"Content-Type": ctype}
+            await api.request(method, case.get("url", "/apis/x"), settings=settings, logger=env["logger"], context=ctxt, **kw)
     except Exception as e:       # noqa: BLE001 — every escalation is an observation
         exc = e
     fin = tk(loop.time())
@@ -901,8 +960,9 @@ def gen_throttle(rng: random.Random) -> dict:
     objs = []
     for _ in range(rng.choice([1, 1, 2, 3])):
         cycles = []
-        for _ in range(rng.choice([1, 2, 3, 4, 6, 8, 10])):
-            r = rng.random()
+        long_run = rng.random() < 0.06
+        for _ in range(rng.choice([1, 2, 3, 4, 6, 8, 10]) if not long_run else rng.choice([14, 18, 24])):
+            r = rng.random() if not long_run else 0.33 + 0.5 * rng.random()
             body = "success" if r < 0.33 else "error" if r < 0.83 else "foreign" if r < 0.92 else "base"
             cycles.append({"body": body, "ran": rng.random() < 0.1, "dur": rng.choice([0, 0, 2, 64, 512]),
                            "wake1": rng.choice([None, None, None, 0, 1, 63, 500, 1025, 4000]),
@@ -1841,7 +1901,7 @@ def _gen_sim_fault(rng: random.Random, transient: bool) -> list:
         return ["timeout"]
     st = rng.choice(SIM_TRANSIENT)
     if rng.random() < (0.6 if st == 429 else 0.25):
-        ra = rng.choice([0, 1, 2, 3, 5, 1.5, 0.25])
+        ra = rng.choice([0, 1, 2, 3, 5, 1.5, 0.25] + ([75] if rng.random() < 0.3 else []))
         if rng.random() < 0.7:
             return ["status", st, {rng.choice(["Retry-After", "Retry-After", "retry-after"]): str(ra)}]
         return ["status", st, {}, {"retryAfterSeconds": ra}]
@@ -1854,7 +1914,7 @@ def gen_sim(rng: random.Random) -> dict:
     if nb == 1 and rng.random() < 0.4:
         backoffs = backoffs[0]                       # a scalar error_backoffs
     r = rng.random()
-    delays: Any = [rng.choice(SIM_D) for _ in range(rng.choice([1, 2, 3]))] if r < 0.75 else \
+    delays: Any = [rng.choice(SIM_D + [700] * (rng.random() < 0.2)) for _ in range(rng.choice([1, 2, 3]))] if r < 0.75 else \
         rng.choice(SIM_D) if r < 0.9 else []
     nobj = rng.choice([2, 2, 3])
     nfaulty = 1 if nobj == 2 else rng.choice([1, 2])
@@ -1981,6 +2041,8 @@ def oracle_sim(case: dict, obs: dict) -> list[tuple[str, dict]]:
                 out.append((f"{name}: a request of a healthy object failed: {bad[0]['resp']}", {"site": "harness", "shape": "fault-leak"}))
             continue
         i, k = 0, 0
+        spans: list[tuple[float, float]] = []       # (start of a cycle's first request, until when the object is busy or paused)
+        judged_all = True
         while i < len(P) and len(out) < 6:
             j, idx, ending = i, 0, None
             while ending is None:
@@ -2010,10 +2072,12 @@ def oracle_sim(case: dict, obs: dict) -> list[tuple[str, dict]]:
                                     {"site": "operator", "shape": "gap<retry-after"}))
                     j, idx = j + 1, idx + 1
             p = P[j]
-            if ending == "special":
+            if ending in ("special", "abandoned"):
+                judged_all = False
                 break
             if ending == "ok":
                 k = 0
+                spans.append((P[i]["t"], p["t_end"]))
             elif ending in ("fatal", "exhausted"):
                 # 'an escalated error pauses that object for the configured error delays (growing per consecutive error)'
                 T = p["t_end"]
@@ -2024,17 +2088,104 @@ def oracle_sim(case: dict, obs: dict) -> list[tuple[str, dict]]:
                 if pause and later and later[0] < deadline:
                     out.append((f"{name}: escalated at {T:g} (consecutive error #{k}), the configured pause is {pause:g} s, "
                                 f"but the object was processed again at {later[0]:g}", {"site": "operator", "shape": "pause-not-served"}))
-                # 'processing recovers once errors stop': an event that came meanwhile is handled when the pause ends,
-                # a later one when it comes
-                pending = [te for te in edits if P[i]["t"] < te <= deadline]
-                if pending:
-                    reacted(deadline, f"changed at {pending[-1]:g} during the pause that ended", "no-recovery-after-pause")
-                else:
-                    te = next((te for te in edits if te > deadline), None)
-                    if te is not None:
-                        reacted(te, "changed after the pause, ", "no-recovery-after-pause")
+                spans.append((P[i]["t"], deadline))
             i = j + 1
+        # 'processing recovers once errors stop': every change of the object is taken up — at once, or, when it comes
+        # while the object is busy with a request (and its retries) or serving a pause, when that is over
+        if judged_all and not out:
+            for te in edits:
+                x = te
+                for a, b in spans:
+                    if a < x < b:
+                        x = b
+                reacted(x, f"changed at {te:g}, free (no request in flight, no pause to serve)", "no-recovery-after-pause")
     return out
+
+
+def sim_passes(obs: dict, name: str) -> list[list[dict]]:
+    """the observed cycles of one object that made requests: a cycle starts with a handler invocation, its
+    requests are those up to the next one (grouping by observation, not by what the retry logic should do)"""
+    starts = sorted(c[1] for c in obs["calls"] if c[0] == name)
+    passes: list[tuple[int | None, list[dict]]] = []
+    for p in obs["patches"].get(name, []):
+        k = max((i for i, t in enumerate(starts) if t <= p["t"]), default=None)
+        if passes and passes[-1][0] == k:
+            passes[-1][1].append(p)
+        else:
+            passes.append((k, [p]))
+    return [ps for _, ps in passes]
+
+
+def _sim_att(p: dict) -> dict | None:
+    """one answered PATCH as the model's attempt (None: an answer outside the model's vocabulary)"""
+    lat = tk(p["t_end"] - p["t"])
+    r = p["resp"]
+    if r == "conn-error":
+        return {"lat": lat, "f": ["exc", True, False, False, False, False]}
+    if r == "timeout":
+        return {"lat": lat, "f": ["exc", False, True, False, False, False]}
+    if not isinstance(r, int):
+        return None
+    if r < 400:
+        return {"lat": lat, "f": ["ok"]}
+    spec = p["spec"] or ["status", r]
+    hdr = None
+    for k, v in (spec[2] if len(spec) > 2 and isinstance(spec[2], dict) else {}).items():
+        if k.lower() == "retry-after":
+            hdr = classify_hdr(v, 0)
+            if hdr is not None and k != "Retry-After":
+                hdr = ["other-case", hdr[1]]
+    det = spec[3].get("retryAfterSeconds") if len(spec) > 3 and isinstance(spec[3], dict) else None
+    return {"lat": lat, "f": ["http", r, hdr, "status", None if det is None else tk(float(det)), False]}
+
+
+def sim_to_lean(case: dict, obs: dict) -> tuple[list[list], list[tuple[str, list[list[dict]]]]]:
+    """one C12.object request per faulty object: its observed cycles (start, the answers its call met)"""
+    st = case["sc"]["settings"]
+    B, D = st["networking.error_backoffs"], st["queueing.error_delays"]
+    cfg = {"backoffs": {"list": [tk(b) for b in B]} if isinstance(B, list) else {"scalar": tk(B)},
+           "enforce": st["networking.enforce_retry_after"]}
+    delays = {"list": [tk(d) for d in D]} if isinstance(D, list) else {"scalar": tk(D)}
+    reqs, index = [], []
+    if obs.get("sim_error") or obs.get("died"):
+        return reqs, index
+    for name in sorted(case["sc"].get("patch_faults") or {}):
+        passes = sim_passes(obs, name)
+        atts = [[_sim_att(p) for p in ps] for ps in passes]
+        if not passes or any(a is None for aa in atts for a in aa):
+            continue
+        reqs.append(["C12.object", cfg, delays, [{"t": tk(ps[0]["t"]), "script": aa, "wake2": 0} for ps, aa in zip(passes, atts)]])
+        index.append((name, passes))
+    return reqs, index
+
+
+def sim_compare(case: dict, obs: dict, answers: list[Any]) -> list[tuple[str, Any, Any]]:
+    """the operator's PATCH schedule of every faulty object against request-model ∘ throttler-model:
+    the attempts of every cycle (exact ticks), how the call ended, and — when a change of the object was
+    waiting — the instant the object is processed again = the model's `active_until`."""
+    res = []
+    _, index = sim_to_lean(case, obs)
+    sc = case["sc"]
+    for (name, passes), m in zip(index, answers):
+        edits = sorted(e[0] for e in sc["timeline"] if e[1] == "edit" and e[2] == name)
+        impl = [{"times": [tk(p["t"]) for p in ps], "ok": isinstance(ps[-1]["resp"], int) and ps[-1]["resp"] < 400} for ps in passes]
+        if not isinstance(m, list):
+            res.append((f"operator: PATCH schedule of {name}", impl, m))
+            continue
+        res.append((f"operator: PATCH attempts of {name}, cycle by cycle", impl,
+                    [{"times": x.get("times"), "ok": x.get("outcome") == "ok"} for x in m]))
+        resume_i, resume_m = [], []
+        for i, (ps, x) in enumerate(zip(passes, m)):
+            u = x.get("until")
+            if u is None or i + 1 >= len(passes):
+                continue
+            if any(tk(ps[0]["t"]) < tk(te) <= u for te in edits):
+                resume_i.append(tk(passes[i + 1][0]["t"]))
+                resume_m.append(u)
+        res.append((f"operator: {name} is processed again when its pause ends", resume_i, resume_m))
+        if any(x.get("escaped") != "none" for x in m):
+            res.append((f"operator: nothing escapes the cycles of {name}", "none", [x.get("escaped") for x in m]))
+    return res
 
 
 def key_sim(case: dict, obs: dict) -> tuple[str, bool]:
@@ -2127,8 +2278,10 @@ def lean_requests(case: dict, obs: dict) -> list[list]:
             reqs.append(["C12.product", seq_to_lean(case["delays"]),
                          [{"obj": k, "at": t, "in": c} for t, k, c, _ in product_events(case, obs)]])
         return reqs
-    if case["part"] in ("contain", "sim"):
+    if case["part"] == "contain":
         return []                       # oracle only
+    if case["part"] == "sim":
+        return sim_to_lean(case, obs)[0]
     return [vault_to_lean(case, obs)]
 
 
@@ -2156,8 +2309,10 @@ def tie_compare(case: dict, obs: dict, answers: list[Any]) -> list[tuple[str, An
                 res.append(("product run of all objects on one clock", [[e[1] for e in evs], a], [[x[0] for x in m], b]))
             else:
                 res.append(("product run of all objects on one clock", "ok", m))
-    elif case["part"] in ("contain", "sim"):
+    elif case["part"] == "contain":
         pass
+    elif case["part"] == "sim":
+        res += sim_compare(case, obs, models)
     else:
         m = models[0]
         a, b = vault_compare(case, obs, m)
@@ -2202,6 +2357,8 @@ def histogram(case: dict, obs: dict, hist: dict) -> None:
             if a["kind"] == "http" and a["status"] >= 400:
                 c("request.body", a.get("payload", "empty") + ("+unusable-details" if det_class(a.get("det"))[1] else ""))
         c("request.method", case.get("method", "get") if not case.get("via") else "api." + case["via"])
+        if case.get("method") and not case.get("via"):
+            c("request.content_type", case.get("ctype"))
         if case.get("via"):
             c("request.via_get", "body-read-fails" if case.get("body_exc") else "body-ok")
         for a in case["script"][:len(obs["times"])]:
@@ -2409,7 +2566,7 @@ def run(ctx: Ctx) -> None:
         _absorb(ctx, res)
     # part S: whole-operator runs (their own subprocess workers, see run_sims)
     srng = random.Random(f"C12-sim-{ctx.seed}-{ctx.rng.random()}")
-    _absorb(ctx, evaluate([gen_sim(srng) for _ in range(ctx.budget(40, 1500))], with_lean=False), oracle_only=True)
+    _absorb(ctx, evaluate([gen_sim(srng) for _ in range(ctx.budget(40, 1500))]))
     # the finite table of check_response, exhaustively: every status 100..1000 through the real code
     _status_table(ctx)
 
